@@ -44,6 +44,9 @@ func VerifC03_KVEndpoints(st any) {
 	s := st.(*Server)
 	store := s.fsm.State()
 	maxKeys, keyLen := 2, 3
+	if verifrt.Thorough() {
+		keyLen = 2 // the third letter of the thorough alphabet is paid for with shorter keys
+	}
 	// the map, built through the store API at increasing symbolic indexes
 	n := verifrt.Choice("nkeys", maxKeys+1)
 	var rows []vKVRow
